@@ -750,3 +750,107 @@ Proof.
   intros t' r' H. repeat (destruct H as [H|H]; [try discriminate|]); [|contradiction].
   injection H as <- <-. discriminate.
 Qed.
+
+(** * add_sys_path: every directory is appended at most once, and never when already there *)
+
+Lemma str_in_In s l : str_in s l = true <-> In s l.
+Proof.
+  induction l as [|x l IH]; cbn; [split; [discriminate|intros []]|].
+  rewrite orb_true_iff, IH. split; intros [H|H]; auto.
+  - left. apply String.eqb_eq in H. auto.
+  - left. subst. apply String.eqb_refl.
+Qed.
+
+Lemma NoDup_snoc (l : list string) x : NoDup l -> ~ In x l -> NoDup (l ++ [x]).
+Proof.
+  induction l as [|y l IH]; cbn; intros N H.
+  - constructor; [intros []|constructor].
+  - inversion N; subst. constructor.
+    + rewrite in_app_iff. cbn. intuition congruence.
+    + apply IH; tauto.
+Qed.
+
+Lemma aupd_same f t th : aupd f t th t = th.
+Proof. unfold aupd. now rewrite Nat.eqb_refl. Qed.
+
+Lemma aupd_other f t th t' : t' <> t -> aupd f t th t' = f t'.
+Proof. unfold aupd. intros H. apply Nat.eqb_neq in H. now rewrite H. Qed.
+
+Lemma arun_inv (I : astate -> Prop) :
+  (forall t st, I st -> I (astep t st)) ->
+  forall sched st, I st -> I (arun sched st).
+Proof. intros Hs sched. induction sched; simpl; auto. Qed.
+
+Definition ainv (st : astate) : Prop :=
+  (forall t, aholds (athreads st t) = true <-> alock st = Some t) /\
+  (forall t p ex rest, aprog (athreads st t) = (p, ex) :: rest ->
+      apcv (athreads st t) = AAppend -> ~ In p (base st ++ added st)) /\
+  NoDup (added st) /\
+  (forall p, In p (added st) -> ~ In p (base st)).
+
+Lemma ainv_init sp0 progs : ainv (ainit sp0 progs).
+Proof.
+  split; [|split; [|split]].
+  - intros t. unfold aholds; cbn. destruct (nth t progs []); split; discriminate.
+  - intros t p ex rest _ H. discriminate.
+  - constructor.
+  - intros p [].
+Qed.
+
+Lemma ainv_step t st : ainv st -> ainv (astep t st).
+Proof.
+  intros H. pose proof H as (HA & HB & HN & HD). pose proof (HA t) as At. pose proof (HB t) as Bt.
+  unfold astep. destruct (athreads st t) as [pr pc] eqn:Hth.
+  destruct pr as [|[p ex] rest]; cbn [aprog apcv]; [exact H|].
+  unfold aholds in At. cbn in At, Bt.
+  destruct pc; cbn [aprog apcv];
+  repeat match goal with
+         | |- context [match ?x with _ => _ end] => destruct x eqn:?
+         end;
+  try exact H.
+  all: split; [|split; [|split]]; cbn [athreads base added known alock alog].
+  all: try assumption.
+  all: try (intros t'; pose proof (HA t') as At'; destruct (Nat.eq_dec t' t) as [->|Hne];
+            [rewrite aupd_same|rewrite aupd_other by exact Hne]; unfold aholds; cbn;
+            try (rewrite Hth in At'; cbn in At');
+            try solve [intuition congruence];
+            destruct rest as [|? ?]; cbn; intuition congruence).
+  all: try (intros t' p' ex' rest'; pose proof (HB t' p' ex' rest') as Bt';
+            pose proof (HA t') as At';
+            destruct (Nat.eq_dec t' t) as [->|Hne];
+            [rewrite aupd_same; cbn; try (intros; discriminate)
+            |rewrite aupd_other by exact Hne; try exact Bt']).
+  - intros E _. injection E as <- _ _. intros Hin. apply str_in_In in Hin. congruence.
+  - intros E1 E2. exfalso.
+    assert (X : aholds (athreads st t') = true) by (unfold aholds; rewrite E1, E2; reflexivity).
+    apply At' in X. destruct At as [At1 _]. specialize (At1 eq_refl). congruence.
+  - specialize (Bt _ _ _ eq_refl eq_refl). rewrite in_app_iff in Bt.
+    apply NoDup_snoc; tauto.
+  - specialize (Bt _ _ _ eq_refl eq_refl). rewrite in_app_iff in Bt.
+    intros p0 Hin. apply in_app_iff in Hin. destruct Hin as [Hin|[<-|[]]]; [apply HD; exact Hin|tauto].
+Qed.
+
+Lemma asp_no_duplicates sp0 progs sched :
+  let st := arun sched (ainit sp0 progs) in
+  base st = sp0 /\ NoDup (added st) /\ forall p, In p (added st) -> ~ In p sp0.
+Proof.
+  cbn zeta.
+  assert (B : forall sched st, base (arun sched st) = base st).
+  { intros s. induction s as [|t s IH]; intros st; [reflexivity|]. cbn. rewrite IH.
+    unfold astep. destruct (aprog _) as [|[p ex] rest]; [reflexivity|].
+    destruct (apcv _); cbn;
+    repeat match goal with
+           | |- context [match ?x with _ => _ end] => destruct x eqn:?
+           end; reflexivity. }
+  pose proof (arun_inv ainv ainv_step sched _ (ainv_init sp0 progs)) as (_ & _ & N & D).
+  rewrite B in D. split; [apply B|]. split; assumption.
+Qed.
+
+Lemma asp_mutex sp0 progs sched t1 t2 :
+  let st := arun sched (ainit sp0 progs) in
+  aholds (athreads st t1) = true -> aholds (athreads st t2) = true -> t1 = t2.
+Proof.
+  intros st H1 H2.
+  pose proof (arun_inv ainv ainv_step sched _ (ainv_init sp0 progs)) as (A & _).
+  apply A in H1. apply A in H2. fold st in H1, H2. congruence.
+Qed.
